@@ -19,6 +19,10 @@ function's own symbols):
                and the fugacity term a_aa_sum2 assume a_ij = a_ji): every store into the user table writes both key orders
                with the same value (or the look-up tries both orders), and the built-in fallback table of
                calc_gas_binary_parameter has mirror-image blocks for (H2O, X) and (X, H2O)
+  C19.quick    "the same relations hold for gases used as EQUILIBRIUM_PHASES": the fast path quick_setup resets every pure-phase
+               target SI to the raw request; the Peng-Robinson correction (adjust_setup_pure_phases) must follow unconditionally
+               as a statement of quick_setup itself - not only when a GAS_PHASE is present - or from the second step on such a
+               gas is held at SI = target instead of log10(phi P)
 Not decided: ideal-gas relations, fixed-pressure existence rule, the root selected in the two-phase region, fugacity = 10^SI,
 gases in EQUILIBRIUM_PHASES (numerical / solver outcome).
 """
@@ -126,6 +130,26 @@ def run(P, R, tier):
     for f in fs:
         one_overload(P, R, f, "PR%d:" % len(f["pnames"]))
     kij_rule(P, R)
+    quick_rule(P, R)
+
+
+def quick_rule(P, R):
+    R.rule("C19.quick", "quick_setup re-applies the Peng-Robinson SI correction unconditionally after resetting the pure-phase targets", minimum=1)
+    f = P.one("Phreeqc::quick_setup")
+    top = [s_ for s_ in f["body"][2] if T.is_node(s_)]
+    reset = [i for i, s_ in enumerate(top) if any(w[0] == "Bin" and w[2] == "=" and T.strip_casts(w[3])[0] == "Member" and T.strip_casts(w[3])[2] == "unknown::si" for w in T.walk(s_))]
+    adj_top = [i for i, s_ in enumerate(top) if s_[0] == "Call" and T.callee_name(s_) == "adjust_setup_pure_phases"]
+    adj_any = [c for c in T.calls(f["body"]) if T.callee_name(c) == "adjust_setup_pure_phases"]
+    if not reset:
+        R.anchor_missing("C19.quick", "quick_setup: the loop that resets unknown::si was not found")
+        return
+    if adj_top and min(adj_top) > max(reset):
+        R.ok("C19.quick", "quick_setup", "adjust_setup_pure_phases() is an unconditional statement after the reset of the targets")
+    elif adj_any:
+        R.violation("C19.quick", "quick_setup", "adjust_setup_pure_phases() (line %d) is conditional or precedes the reset of the target SIs: on the fast path a Peng-Robinson gas in "
+                    "EQUILIBRIUM_PHASES is held at the raw target SI (phi = 1)" % adj_any[0][1], file=f["file"], line=adj_any[0][1], function=f["q"])
+    else:
+        R.violation("C19.quick", "quick_setup", "quick_setup no longer re-applies the Peng-Robinson SI correction", file=f["file"], line=f["line"], function=f["q"])
 
 
 def kij_rule(P, R):
